@@ -88,6 +88,9 @@ def run_events(rep, tvs: list, owned: set, *, label: str, make_event=conv.ev_fro
         c, e, mine = info[i]
         for cl in mine:
             rep.witness(conv.signature(cl, c, e), {**c.describe(), 'event': e, 'clause': cl})
+    if vocab.CLASS_DEF_FAILURES:
+        stats['class_definitions_refused'] = len(vocab.CLASS_DEF_FAILURES)
+        stats['class_definitions_refused_examples'] = vocab.CLASS_DEF_FAILURES[:3]
     stats['rejected_events'] = len(info)
     stats['minimal_witnesses'] = len(minimal)
     rep.skipped += stats['skipped']
